@@ -104,7 +104,7 @@ DHCPv6::DHCPv6()
 }
 
 DHCPv6::DHCPv6(const uint8_t* buffer, uint32_t total_sz) 
-: options_size_() {
+: header_data_(), options_size_() {
     InputMemoryStream stream(buffer, total_sz);
     if (!stream) {
         throw malformed_packet();
